@@ -468,6 +468,39 @@ def outcome(fn, *a, **kw):
         return False, type(e).__name__, str(e).split("\n")[0][:200]
 
 
+def reference_compile(api, folder, name, opts):
+    """Fresh compile with the options as transfer_model rewrites them, caching off, and the four functions
+    built (save_model needs them): (ok, model | class name, message)."""
+    o = dict(opts)
+    cache, codegen = bool(o.get("cache")), bool(o.get("codegen"))
+    if cache and codegen:
+        cache = False
+    if cache:
+        o["expand_mx"] = True
+    o["cache"] = False
+    o["codegen"] = False
+
+    def compile_and_build():
+        m = api.transfer_model(folder, name, o)
+        for fn in FUNCS:
+            getattr(m, fn + "_function")
+        return m
+    return outcome(compile_and_build)
+
+
+FLIP_KEYS = ["expand_vectors", "detect_aliases", "eliminate_constant_assignments", "replace_constant_values",
+             "replace_parameter_values", "replace_parameter_expressions", "resolve_parameter_values", "expand_mx",
+             "replace_constant_expressions", "factor_and_simplify_equations", "allow_derivative_aliases", "check_balanced",
+             "unroll_loops", "inline_functions", "reduce_affine_expression"]
+
+
+def flip(opts, key):
+    from pymoca.backends.casadi._options import _get_default_options
+    o = dict(opts)
+    o[key] = not dict(_get_default_options(), **opts)[key]
+    return o
+
+
 outcome_base = outcome   # also classifies BaseException subclasses (simulated crashes)
 
 
@@ -613,18 +646,4 @@ class CacheWorld:
     def reference(self, opts, libs):
         """Fresh compile of the current sources with the current options (no cache involved): the
         options as transfer_model rewrites them, minus caching."""
-        o = self.real_opts(opts, libs)
-        cache, codegen = bool(o.get("cache")), bool(o.get("codegen"))
-        if cache and codegen:
-            cache = False
-        if cache:
-            o["expand_mx"] = True
-        o["cache"] = False
-        o["codegen"] = False
-
-        def compile_and_build():
-            m = self.api.transfer_model(self.dirs[0], self.name, o)
-            for fn in FUNCS:       # save_model needs the four functions: a model without them is not a model here
-                getattr(m, fn + "_function")
-            return m
-        return outcome(compile_and_build)
+        return reference_compile(self.api, self.dirs[0], self.name, self.real_opts(opts, libs))
